@@ -200,7 +200,7 @@ class S2(H.Session):
             t.rec.create_patch()
             self.out.classes.add("op_refused_calls")
         elif kind == "second":
-            files = [os.path.join(t.dir, n) for n in self.committed if n.endswith(".ih5")]
+            files = [os.path.join(t.dir, n) for n in self.committed if n.endswith(".ih5") and n.startswith("rec")]
             if not files:
                 return
             r2 = self.cls([Path(f) for f in files], "r")
@@ -235,6 +235,19 @@ class S2(H.Session):
             self.allowed_extra |= {name + ".ih5"} | ({name + ".ih5mf.json"} if self._is_mf() else set())
             t.rec.merge_files(Path(t.dir) / name)
             self.audit("after merge_files")
+            for fn in (name + ".ih5", name + ".ih5mf.json"):
+                fp = os.path.join(t.dir, fn)
+                if os.path.exists(fp):
+                    self.committed[fn] = (os.path.getsize(fp), recutil.sha(fp))  # the merged container is committed too
+            # merging onto a name that exists already (the record itself, the container just written) must be
+            # refused without touching anything
+            for existing in ("rec", name):
+                try:
+                    t.rec.merge_files(Path(t.dir) / existing)
+                except Exception:  # noqa: BLE001
+                    pass
+                self.audit(f"after merge_files onto the existing record '{existing}'")
+            self.verify("after refused merges")
             t.rec.create_patch()
             self.out.classes.add("op_merge")
         else:
